@@ -264,8 +264,11 @@ func TestC03(t *testing.T) {
 		// templates whose outcome depends on the environment in ways a template object might remember:
 		// the name of an included partial, the order of a map's Liquid-equal keys
 		perEnv := []string{"<{% include partial %}>", "{% for pn in pnames %}{% include pn %};{% endfor %}{{ inc_a }}", "{% for kv in mx %}{{ kv[1] }} {% endfor %}|{{ mx | join: ',' }}",
-			"{% include partial %}{% for pn in pnames reversed %}{% include pn %}{% endfor %}"}
-		for i, n := 0, rapid.IntRange(0, 2).Draw(t, "nperenv"); i < n; i++ {
+			"{% include partial %}{% for pn in pnames reversed %}{% include pn %}{% endfor %}",
+			// filters that might keep tables between calls: the same filter with other arguments in between
+			"{{ f | round: 2 }}|{{ 183.357 | round: 2 }}|{{ 183.357 | round: 1 }}", "{{ n | times: 100 | plus: 50 | round: -2 }}|{{ 1250 | round: -2 }}", "{{ 183.357 | round: -1 }}|{{ 0.5 | round: -1 }}|{{ f | round: -3 }}",
+			"{{ s | truncate: 3 }}|{{ 'abcdef' | truncate: 4, '..' }}", "{{ 'a,b' | split: ',' | join: '-' }}|{{ s | split: '' | size }}"}
+		for i, n := 0, rapid.IntRange(0, 3).Draw(t, "nperenv"); i < n; i++ {
 			c.Raw, c.RawWant = append(c.Raw, rapid.SampledFrom(perEnv).Draw(t, "perenv")), append(c.RawWant, "")
 		}
 		dates := []string{"2020-05-03 04:05:06 +0000", "2020-05-03 04:05:06 EST", "2015-06-07", "March 14, 2016", "2017-07-09T10:40:00Z", "Jan 2 2006", "2020-05-03 04:05:06 +0100", "not a date"}
